@@ -8,19 +8,26 @@ import subprocess
 import sys
 
 VERIF = os.path.dirname(os.path.dirname(os.path.abspath(__file__)))
-rows = []
-for d in sorted(glob.glob(os.path.join(VERIF, 'seeded', '*'))):
-    if not os.path.isdir(d) or not os.path.exists(os.path.join(d, 'patch.diff')):
-        continue
+from concurrent.futures import ThreadPoolExecutor
+
+dirs = [d for d in sorted(glob.glob(os.path.join(VERIF, 'seeded', '*')))
+        if os.path.isdir(d) and os.path.exists(os.path.join(d, 'patch.diff'))]
+
+
+def one(d):
     sid = os.path.basename(d)
     meta = json.load(open(os.path.join(d, 'meta.json')))
     checks = list(meta.get('checks', {})) or [sid.split('-')[0]]
     p = subprocess.run([sys.executable, os.path.join(VERIF, 'tools', 'seed_eval.py'), d, sid] + checks, capture_output=True, text=True)
-    out = p.stdout.strip().splitlines()
-    print('\n'.join(out))
+    print(p.stdout.strip(), flush=True)
     meta = json.load(open(os.path.join(d, 'meta.json')))
-    rows.append((sid, meta.get('patch_applies'), meta.get('valid_seed'), ','.join(meta.get('detected_by', [])) or '-',
-                 (list(meta.get('checks', {}).values())[0]['first_clauses'] or [''])[0][:90] if meta.get('checks') else ''))
+    applies = 'PATCH DOES NOT APPLY' not in p.stdout
+    return (sid, applies, meta.get('valid_seed') and applies, (','.join(meta.get('detected_by', [])) or '-') if applies else 'not re-evaluated',
+            (list(meta.get('checks', {}).values())[0]['first_clauses'] or [''])[0][:90] if meta.get('checks') else '')
+
+
+with ThreadPoolExecutor(int(os.environ.get('SEED_JOBS', '3'))) as ex:
+    rows = list(ex.map(one, dirs))
 with open(os.path.join(VERIF, 'seeded', 'RESULTS.md'), 'w') as f:
     head = subprocess.check_output(['git', '-C', '/repo', 'rev-parse', '--short', 'HEAD'], text=True).strip()
     f.write('# Seeded defects re-evaluated against /repo %s\n\n' % head)
